@@ -19,7 +19,20 @@ def to_tagged(t):
     if isinstance(t, list):
         return {"a": [to_tagged(x) for x in t]}
     if isinstance(t, tuple) and t[0] == "__obj__":
-        return {"o": [[k, to_tagged(v)] for (k, v) in t[1]]}
+        keys = [k for (k, _v) in t[1]]
+        out = []
+        for (k, v) in t[1]:
+            if k == "$" and isinstance(v, str) and "type" in keys:
+                # A-LEX: the float a lexical form denotes is computed here, not in Lean
+                try:
+                    x = float(v)
+                    if x == x and x not in (float("inf"), float("-inf")):
+                        out.append([k, {"s": v, "f": proto.enc_float(x)}])
+                        continue
+                except ValueError:
+                    pass
+            out.append([k, to_tagged(v)])
+        return {"o": out}
     raise TypeError(type(t))
 
 
